@@ -203,31 +203,128 @@ Proof.
 Qed.
 
 (* ---- the value written by the snapshot evaluates back ---- *)
-Lemma pp_value_eval : forall e v, env_ok e -> snap_safe v = true -> exists f, pp_value v = Ok f /\ eval e f = Ok v.
+Definition slot_pp (kv : string * obj) : res obj := bind (pp_value (snd kv)) (fun fw => Ok (setf_slot (fst kv) fw)).
+
+Lemma pp_value_list : forall xs,
+  (fix go (l : list obj) : res (list obj) :=
+     match l with
+     | [] => Ok []
+     | a :: r => bind (pp_value a) (fun b => bind (go r) (fun bs => Ok (b :: bs)))
+     end) xs = map_res pp_value xs.
+Proof. induction xs as [|a r IH]; [reflexivity|]. cbn [map_res]. rewrite <- IH. reflexivity. Qed.
+
+Lemma pp_value_slots : forall slots,
+  (fix go (l : list (string * obj)) : res (list obj) :=
+     match l with
+     | [] => Ok []
+     | (k, w) :: r => bind (pp_value w) (fun fw => bind (go r) (fun fs => Ok (setf_slot k fw :: fs)))
+     end) slots = map_res slot_pp slots.
 Proof.
-  intros e v He H. destruct v; cbn [snap_safe] in H; try discriminate;
-    try solve [eexists; split; [reflexivity|];
-               first [reflexivity | apply eval_sym; assumption | apply self_evaluating_eval; assumption]].
-  - (* Hash *) apply andb_true_iff in H. destruct H as [H _]. destruct (reloads_in _ H) as (f & Ef & Ev).
-    exists f. split; [exact Ef|apply Ev; exact He].
-  - (* Lam *) destruct (reloads_in _ H) as (f & Ef & Ev). exists f. split; [exact Ef|apply Ev; exact He].
+  induction slots as [|[k w] r IH]; [reflexivity|]. cbn [map_res]. rewrite <- IH. unfold slot_pp. cbn [fst snd].
+  destruct (pp_value w); reflexivity.
 Qed.
 
-Lemma const_eval : forall e v, env_ok e -> const_safe v = true -> eval e v = Ok v.
+Lemma pp_value_L : forall xs, forallb is_literal xs = false ->
+  pp_value (L xs) = bind (map_res pp_value xs) (fun fs => Ok (L (Sym "list" :: fs))).
+Proof. intros xs H. cbn [pp_value]. rewrite H, pp_value_list. reflexivity. Qed.
+
+Lemma pp_value_Inst : forall f slots, pp_value (Inst f slots) = bind (map_res slot_pp slots) (fun es => Ok (inst_let f es)).
+Proof. intros f slots. cbn [pp_value]. rewrite pp_value_slots. reflexivity. Qed.
+
+(* what the snapshot writes for a value evaluates to the value, in every environment that knows the flavors of the
+   instances inside it *)
+Definition vreloads (v : obj) : Prop :=
+  exists f, pp_value v = Ok f /\ forall e, env_ok e -> insts_in e v = true -> eval e f = Ok v.
+
+Lemma vreloads_all : forall xs, Forall (fun v => snap_safe v = true -> vreloads v) xs -> forallb snap_safe xs = true ->
+  exists fs, map_res pp_value xs = Ok fs /\
+             forall e, env_ok e -> forallb (insts_in e) xs = true -> map_res (eval e) fs = Ok xs.
 Proof.
-  intros e v He H. apply self_evaluating_eval; [exact He|]. destruct v; cbn [const_safe] in H; try discriminate; exact H.
+  induction xs as [|a r IH]; intros HF Hl.
+  - exists []. split; [reflexivity|]. intros; reflexivity.
+  - cbn [forallb] in Hl. apply andb_true_iff in Hl. destruct Hl as [Ha Hr].
+    pose proof (Forall_inv HF) as Pa. pose proof (Forall_inv_tail HF) as Pr. cbn beta in Pa.
+    destruct (Pa Ha) as (fa & Efa & Eva). destruct (IH Pr Hr) as (fs & Efs & Evs).
+    exists (fa :: fs). split.
+    + cbn [map_res]. rewrite Efa, Efs. reflexivity.
+    + intros e He Hi. cbn [forallb] in Hi. apply andb_true_iff in Hi. destruct Hi as [Hia Hir].
+      cbn [map_res]. rewrite (Eva e He Hia), (Evs e He Hir). reflexivity.
+Qed.
+
+Theorem value_reloads_in : forall v, snap_safe v = true -> vreloads v.
+Proof.
+  unfold snap_safe.
+  induction v using obj_ind2; intro Hs; unfold vreloads; cbn [snap_safe_g] in Hs; try discriminate;
+    try solve [eexists; split; [reflexivity|]; intros; reflexivity].
+  - (* Sym *)
+    cbn [pp_value]. destruct (is_keyword s) eqn:K; eexists; (split; [reflexivity|]); intros e He _.
+    + cbn [eval]. rewrite K. reflexivity.
+    + reflexivity.
+  - (* L *)
+    destruct (forallb is_literal xs) eqn:Elit.
+    + eexists. split; [cbn [pp_value]; rewrite Elit; reflexivity|]. intros; reflexivity.
+    + fold (snap_safe_g false) in *. destruct (vreloads_all xs H Hs) as (fs & Efs & Evs).
+      exists (L (Sym "list" :: fs)). split; [rewrite (pp_value_L xs Elit), Efs; reflexivity|].
+      intros e He Hi. cbn [insts_in] in Hi. cbn [eval]. cbn [String.eqb Ascii.eqb Bool.eqb]. rewrite eval_list, (Evs e He Hi). cbn [bind].
+      unfold apply_fn. cbn [String.eqb Ascii.eqb Bool.eqb]. destruct xs; [discriminate|reflexivity].
+  - (* Dot *)
+    destruct (is_literal (Dot xs v)) eqn:Elit.
+    + eexists. split; [cbn [pp_value]; rewrite Elit; reflexivity|]. intros; reflexivity.
+    + destruct (reloads_in _ Hs) as (f & Ef & Ev). exists f. split; [cbn [pp_value]; rewrite Elit; exact Ef|exact Ev].
+  - (* Hash *) destruct (reloads_in _ Hs) as (f & Ef & Ev). exists f. split; [exact Ef|exact Ev].
+  - (* Lam *) destruct (reloads_in _ Hs) as (f & Ef & Ev). exists f. split; [exact Ef|exact Ev].
+  - (* Inst: every instance variable through ppValue again *)
+    fold (snap_safe_g false) in *.
+    assert (Hfws : exists fws, map_res slot_pp slots = Ok (map (fun p => setf_slot (fst p) (snd p)) (combine (map fst slots) fws)) /\
+              forall e, env_ok e ->
+                (fix go (l : list (string * obj)) : bool := match l with [] => true | (_, w) :: r => insts_in e w && go r end) slots = true ->
+                Forall2 (fun kv fw => forall cur, eval (("inst", Inst f cur) :: e) fw = Ok (snd kv)) slots fws).
+    { induction slots as [|[k w] r IHr].
+      - exists []. split; [reflexivity|]. intros; constructor.
+      - inversion H as [|? ? Pw Pr]; subst. cbn [snd] in Pw.
+        apply andb_true_iff in Hs. destruct Hs as [Hw Hr]. apply andb_true_iff in Hw. destruct Hw as [_ Hw].
+        destruct (IHr Pr Hr) as (fws & Efws & Hfws). destruct (Pw Hw) as (fw & Efw & Evw).
+        exists (fw :: fws). split.
+        + cbn [map_res]. unfold slot_pp at 1. cbn [fst snd]. rewrite Efw. cbn [bind]. rewrite Efws. reflexivity.
+        + intros e He Hi. apply andb_true_iff in Hi. destruct Hi as [Hiw Hir].
+          constructor; [|apply Hfws; assumption]. intro cur. cbn [snd].
+          apply Evw; [apply env_ok_inst; exact He|apply insts_in_inst; exact Hiw]. }
+    destruct Hfws as (fws & Efws & Hfws).
+    eexists. split.
+    + rewrite pp_value_Inst, Efws. reflexivity.
+    + intros e He Hi. cbn [insts_in] in Hi. apply andb_true_iff in Hi. destruct Hi as [Hi Hg]. apply andb_true_iff in Hi. destruct Hi as [Hi Hn].
+      apply andb_true_iff in Hi. destruct Hi as [_ Hlk].
+      destruct (lookup e f) as [fv|] eqn:El; [|discriminate]. destruct fv; try discriminate.
+      apply strings_eqb_eq in Hlk. apply keys_nodupb_nodup in Hn.
+      rewrite (eval_inst_let e f _ _ _ _ _ _ _ El).
+      pose proof (run_inst_all e f slots fws [] ivars (Hfws e He Hg) Hlk) as Hrun. cbn [app map] in Hrun. apply Hrun. exact Hn.
+Qed.
+
+(* Theorem 3: for EVERY value inside the guard -- symbols, lists of data, lists that hold tables or instances, hash
+   tables, lambdas, instances whose variables hold any such value, nested without bound -- the form the snapshot writes
+   evaluates back to the value, in every environment that knows the flavors of the instances *)
+Theorem value_reloads : forall v, snap_safe v = true -> forall e, env_ok e -> insts_in e v = true ->
+  exists f, pp_value v = Ok f /\ eval e f = Ok v.
+Proof.
+  intros v Hs e He Hi. destruct (value_reloads_in v Hs) as (f & Ef & Ev). exists f. split; [exact Ef|exact (Ev e He Hi)].
 Qed.
 
 (* ---- single steps of the loader ---- *)
-Lemma exec_defconstant : forall s n v d,
-  eval (env_of s) v = Ok v -> alookup (s_vars s) n = None ->
-  exec s (L ([Sym "defconstant"; Sym (qual n); v] ++ (if (d =? "")%string then [] else [Str d])))
+Lemma exec_defconstant : forall s n f v d,
+  eval (env_of s) f = Ok v -> alookup (s_vars s) n = None ->
+  exec s (L ([Sym "defconstant"; Sym (qual n); f] ++ (if (d =? "")%string then [] else [Str d])))
   = Ok (set_var s n (mkV (Some v) d true)).
 Proof.
-  intros s n v d Hev Hl. cbn [app exec]. cbn [String.eqb Ascii.eqb Bool.eqb]. rewrite resolve_qual.
+  intros s n f v d Hev Hl. cbn [app exec]. cbn [String.eqb Ascii.eqb Bool.eqb]. rewrite resolve_qual.
   rewrite Hev. cbn [bind]. destruct (d =? "") eqn:Ed.
   - apply String.eqb_eq in Ed. subst. cbn [bind]. rewrite Hl. reflexivity.
   - cbn [bind]. rewrite Hl. reflexivity.
+Qed.
+
+Lemma exec_defvar_unbound : forall s n, alookup (s_vars s) n = None ->
+  exec s (L [Sym "defvar"; Sym (qual n)]) = Ok (set_var s n (mkV None "" false)).
+Proof.
+  intros s n Hl. cbn [exec]. cbn [String.eqb Ascii.eqb Bool.eqb]. rewrite resolve_qual. rewrite Hl. reflexivity.
 Qed.
 
 Lemma exec_defvar_new : forall s n d, alookup (s_vars s) n = None ->
@@ -286,6 +383,12 @@ Proof. intros kv H k [<-|[]]. apply var_ok_name. exact H. Qed.
 Lemma names_free_one' : forall n r r', var_ok (n, r) = true -> names_free [(n, r')].
 Proof. intros n r r' H k [<-|[]]. apply (var_ok_name (n, r)). exact H. Qed.
 
+Lemma var_ok_value : forall n v d c, var_ok (n, mkV (Some v) d c) = true -> snap_safe v = true /\ no_inst v = true.
+Proof.
+  intros n v d c H. unfold var_ok in H. cbn [fst snd] in H. apply andb_true_iff in H. destruct H as [_ H].
+  apply andb_true_iff in H. exact H.
+Qed.
+
 Lemma load_consts : forall l vars funs,
   forallb var_ok l = true -> NoDup (map fst l) -> (forall k, In k (map fst l) -> ~ In k (map fst vars)) -> names_free vars ->
   load_forms (mkS vars funs) (flat_map const_forms l)
@@ -299,20 +402,19 @@ Proof.
     assert (Hfresh' : forall k, In k (map fst l) -> ~ In k (map fst vars)) by (intros k Hk; apply Hfresh; right; exact Hk).
     cbn [flat_map]. unfold consts_of in *. cbn [filter]. unfold is_const at 1 3. cbn [snd].
     destruct r as [[v|] d [|]]; cbn [const_forms v_const].
-    + (* a constant *)
-      pose proof Hkv as Hkv'. unfold var_ok in Hkv'. cbn [fst snd] in Hkv'. apply andb_true_iff in Hkv'. destruct Hkv' as [_ Hcs].
-      rewrite load_forms_app. cbn [load_forms].
-      rewrite (exec_defconstant (mkS vars funs) n v d).
-      * unfold set_var. cbn [s_vars s_funs]. rewrite (aset_new vars n _ Hnv).
-        rewrite (IH (vars ++ [(n, mkV (Some v) d true)]) funs Hok Hnd').
-        -- rewrite <- app_assoc. reflexivity.
-        -- intros k Hk Hin. rewrite map_app in Hin. apply in_app_or in Hin. destruct Hin as [Hin|[<-|[]]];
-             [exact (Hfresh' k Hk Hin)|exact (Hn Hk)].
-        -- apply names_free_app; [exact Hfree|exact (names_free_one _ Hkv)].
-      * apply const_eval; [apply env_of_ok; exact Hfree|exact Hcs].
-      * apply alookup_none. exact Hnv.
+    + (* a constant: its value is written by ppValue *)
+      destruct (var_ok_value _ _ _ _ Hkv) as [Hss Hni].
+      destruct (value_reloads v Hss (env_of (mkS vars funs)) (env_of_ok (mkS vars funs) Hfree) (no_inst_insts_in v _ Hni)) as (f & Ef & Evf).
+      rewrite Ef. rewrite load_forms_app. cbn [load_forms].
+      rewrite (exec_defconstant (mkS vars funs) n f v d Evf (alookup_none vars n Hnv)).
+      unfold set_var. cbn [s_vars s_funs]. rewrite (aset_new vars n _ Hnv).
+      rewrite (IH (vars ++ [(n, mkV (Some v) d true)]) funs Hok Hnd').
+      * rewrite <- app_assoc. reflexivity.
+      * intros k Hk Hin. rewrite map_app in Hin. apply in_app_or in Hin. destruct Hin as [Hin|[<-|[]]];
+          [exact (Hfresh' k Hk Hin)|exact (Hn Hk)].
+      * apply names_free_app; [exact Hfree|exact (names_free_one _ Hkv)].
     + apply (IH vars funs Hok Hnd' Hfresh' Hfree).
-    + unfold var_ok in Hkv. cbn [fst snd] in Hkv. rewrite andb_false_r in Hkv. discriminate.
+    + unfold var_ok in Hkv. cbn [fst snd negb] in Hkv. rewrite !andb_false_r in Hkv. discriminate.
     + apply (IH vars funs Hok Hnd' Hfresh' Hfree).
 Qed.
 
@@ -320,7 +422,7 @@ Lemma load_vars : forall l vars funs,
   forallb var_ok l = true -> NoDup (map fst l) ->
   (forall k, In k (map fst (filter (fun kv => negb (is_const kv)) l)) -> ~ In k (map fst vars)) -> names_free vars ->
   load_forms (mkS vars funs) (flat_map var_forms l)
-  = (mkS (vars ++ vars_of l) funs, repeat true (2 * List.length (vars_of l))).
+  = (mkS (vars ++ vars_of l) funs, repeat true (List.length (flat_map var_forms l))).
 Proof.
   induction l as [|[n r] l IH]; intros vars funs Hok Hnd Hfresh Hfree.
   - cbn. rewrite app_nil_r. reflexivity.
@@ -329,31 +431,43 @@ Proof.
     cbn [flat_map]. unfold vars_of in *. cbn [filter] in Hfresh |- *. unfold is_const at 1 3. unfold is_const at 1 in Hfresh. cbn [snd] in Hfresh |- *.
     destruct r as [[v|] d [|]]; cbn [var_forms v_const negb] in Hfresh |- *.
     + apply (IH vars funs Hok Hnd' Hfresh Hfree).
-    + (* a variable: defvar then setq *)
+    + (* a variable with a value: defvar then setq *)
       assert (Hnv : ~ In n (map fst vars)) by (apply Hfresh; left; reflexivity).
       assert (Hfresh' : forall k, In k (map fst (filter (fun kv => negb (is_const kv)) l)) -> ~ In k (map fst vars))
         by (intros k Hk; apply Hfresh; right; exact Hk).
-      pose proof Hkv as Hkv'. unfold var_ok in Hkv'. cbn [fst snd] in Hkv'. apply andb_true_iff in Hkv'. destruct Hkv' as [_ Hss].
+      destruct (var_ok_value _ _ _ _ Hkv) as [Hss Hni].
       destruct (exec_defvar_new (mkS vars funs) n d (alookup_none vars n Hnv)) as (r0 & Ex & Hd & Hc).
       set (s1 := set_var (mkS vars funs) n r0).
       assert (Hs1 : s_vars s1 = vars ++ [(n, r0)]) by (unfold s1, set_var; cbn [s_vars]; apply aset_new; exact Hnv).
       assert (Hfree1 : names_free (s_vars s1)).
       { rewrite Hs1. apply names_free_app; [exact Hfree|]. exact (names_free_one' n _ r0 Hkv). }
-      destruct (pp_value_eval (env_of s1) v (env_of_ok s1 Hfree1) Hss) as (f & Ef & Evf).
+      destruct (value_reloads v Hss (env_of s1) (env_of_ok s1 Hfree1) (no_inst_insts_in v _ Hni)) as (f & Ef & Evf).
       rewrite Ef. cbn [app] in Ex |- *. cbn [load_forms]. rewrite Ex. fold s1.
       rewrite (exec_setq s1 n f v r0 Evf); [|rewrite Hs1; apply alookup_last; exact Hnv|exact Hc].
       unfold set_var at 1. rewrite Hs1. rewrite (aset_last vars n r0 _ Hnv). rewrite Hd. unfold s1, set_var at 1. cbn [s_funs].
       rewrite (IH (vars ++ [(n, mkV (Some v) d false)]) funs Hok Hnd').
-      * rewrite <- app_assoc. unfold is_const. cbn [snd v_const negb List.length app].
-        replace (2 * S (List.length (filter (fun kv : string * vrec => negb (v_const (snd kv))) l)))
-          with (S (S (2 * List.length (filter (fun kv : string * vrec => negb (v_const (snd kv))) l)))) by lia.
-        reflexivity.
+      * rewrite <- app_assoc. unfold is_const. cbn [snd v_const negb List.length app]. reflexivity.
       * intros k Hk Hin. rewrite map_app in Hin. apply in_app_or in Hin. destruct Hin as [Hin|[<-|[]]];
           [exact (Hfresh' k Hk Hin)|].
         apply Hn. apply in_map_iff in Hk. destruct Hk as (kv & E & Hf). apply filter_In in Hf. apply in_map_iff. exists kv. tauto.
       * apply names_free_app; [exact Hfree|exact (names_free_one _ Hkv)].
-    + unfold var_ok in Hkv. cbn [fst snd] in Hkv. rewrite andb_false_r in Hkv. discriminate.
-    + unfold var_ok in Hkv. cbn [fst snd] in Hkv. rewrite andb_false_r in Hkv. discriminate.
+    + unfold var_ok in Hkv. cbn [fst snd negb] in Hkv. rewrite !andb_false_r in Hkv. discriminate.
+    + (* declared without a value: the defvar alone *)
+      assert (Hnv : ~ In n (map fst vars)) by (apply Hfresh; left; reflexivity).
+      assert (Hfresh' : forall k, In k (map fst (filter (fun kv => negb (is_const kv)) l)) -> ~ In k (map fst vars))
+        by (intros k Hk; apply Hfresh; right; exact Hk).
+      assert (Hd : d = "").
+      { unfold var_ok in Hkv. cbn [fst snd] in Hkv. apply andb_true_iff in Hkv. destruct Hkv as [_ Hkv].
+        apply andb_true_iff in Hkv. destruct Hkv as [Hd _]. apply String.eqb_eq in Hd. exact Hd. }
+      subst d. cbn [String.eqb app]. cbn [load_forms].
+      rewrite (exec_defvar_unbound (mkS vars funs) n (alookup_none vars n Hnv)).
+      unfold set_var. cbn [s_vars s_funs]. rewrite (aset_new vars n _ Hnv).
+      rewrite (IH (vars ++ [(n, mkV None "" false)]) funs Hok Hnd').
+      * rewrite <- app_assoc. unfold is_const. cbn [snd v_const negb List.length app]. reflexivity.
+      * intros k Hk Hin. rewrite map_app in Hin. apply in_app_or in Hin. destruct Hin as [Hin|[<-|[]]];
+          [exact (Hfresh' k Hk Hin)|].
+        apply Hn. apply in_map_iff in Hk. destruct Hk as (kv & E & Hf). apply filter_In in Hf. apply in_map_iff. exists kv. tauto.
+      * apply names_free_app; [exact Hfree|exact (names_free_one _ Hkv)].
 Qed.
 
 Lemma load_funs : forall allf l vars funs,
@@ -409,8 +523,14 @@ Proof.
   cbn [forallb] in H. apply andb_true_iff in H. destruct H as [Hkv Hl].
   cbn [flat_map]. rewrite (IH Hl). rewrite app_nil_r.
   destruct ov as [v|]; [|reflexivity]. destruct v; try reflexivity. destruct c; [reflexivity|].
-  unfold var_ok in Hkv. cbn [fst snd snap_safe self_evaluating] in Hkv. rewrite andb_false_r in Hkv. discriminate.
+  destruct (var_ok_value _ _ _ _ Hkv) as [Hss _]. discriminate.
 Qed.
+
+Lemma repeat_true_all : forall n, forallb (fun b : bool => b) (repeat true n) = true.
+Proof. induction n; [reflexivity|exact IHn]. Qed.
+
+Lemma funs_order_perm : forall l, Permutation (funs_order l) l.
+Proof. intro l. unfold funs_order. apply filter_partition_perm. Qed.
 
 (* Theorem 2: a session inside the guard whose keys are unique (which every history guarantees) is rebuilt by loading
    its snapshot; every form of the snapshot loads; the snapshot of the rebuilt session is the same list of forms *)
@@ -420,37 +540,38 @@ Theorem session_roundtrip : forall s, keys_nodup s -> sess_ok s = true ->
   /\ forallb (fun b => b) (snd (load_forms empty_session (snapshot s))) = true.
 Proof.
   intros s [Hnv Hnf] Hok. unfold sess_ok in Hok. apply andb_true_iff in Hok. destruct Hok as [Hvok Hfok].
-  set (sv := sort_by (s_vars s)). set (sf := sort_by (s_funs s)).
+  set (sv := sort_by (s_vars s)). set (sf := sort_by (s_funs s)). set (of := funs_order sf).
   assert (Hsvok : forallb var_ok sv = true) by (eapply forallb_perm; [symmetry; apply sort_perm|exact Hvok]).
-  assert (Hsfok : forallb (fun_ok (s_funs s)) sf = true) by (eapply forallb_perm; [symmetry; apply sort_perm|exact Hfok]).
+  assert (Hpof : Permutation of (s_funs s)) by (etransitivity; [apply funs_order_perm|apply sort_perm]).
+  assert (Hofok : forallb (fun_ok (s_funs s)) of = true) by (eapply forallb_perm; [symmetry; exact Hpof|exact Hfok]).
   assert (Hsvnd : NoDup (map fst sv)) by (apply sort_nodup; exact Hnv).
-  assert (Hsfnd : NoDup (map fst sf)) by (apply sort_nodup; exact Hnf).
-  assert (Hload : load_forms empty_session (snapshot s)
-                  = (mkS (consts_of sv ++ vars_of sv) sf,
-                     repeat true (List.length (consts_of sv)) ++ repeat true (2 * List.length (vars_of sv)) ++ repeat true (List.length sf))).
-  { unfold snapshot. fold sv sf. rewrite (no_flavor_forms sv Hsvok). cbn [app].
+  assert (Hofnd : NoDup (map fst of)) by (eapply Permutation_NoDup; [apply Permutation_map; symmetry; exact Hpof|exact Hnf]).
+  assert (Hload : exists oks, load_forms empty_session (snapshot s) = (mkS (consts_of sv ++ vars_of sv) of, oks)
+                              /\ forallb (fun b => b) oks = true).
+  { unfold snapshot. fold sv sf of. rewrite (no_flavor_forms sv Hsvok). cbn [app].
     rewrite load_forms_app. unfold empty_session.
     rewrite (load_consts sv [] [] Hsvok Hsvnd); [|intros k _ []|intros k []]. cbn [app].
     rewrite load_forms_app.
     rewrite (load_vars sv (consts_of sv) [] Hsvok Hsvnd).
-    - rewrite (load_funs (s_funs s) sf _ [] Hsfok Hsfnd); [|intros k _ []]. reflexivity.
+    - rewrite (load_funs (s_funs s) of _ [] Hofok Hofnd); [|intros k _ []]. eexists. split; [reflexivity|].
+      rewrite !forallb_app, !repeat_true_all. reflexivity.
     - intros k Hk. apply filter_keys_disjoint; assumption.
     - intros k Hin. unfold consts_of in Hin.
       apply in_map_iff in Hin. destruct Hin as (kv & <- & Hf). apply filter_In in Hf. destruct Hf as [Hkv _].
       rewrite forallb_forall in Hsvok. apply var_ok_name. apply Hsvok. exact Hkv. }
-  assert (Hrs : reload_session s = mkS (consts_of sv ++ vars_of sv) sf).
+  destruct Hload as (oks & Hload & Hoks).
+  assert (Hrs : reload_session s = mkS (consts_of sv ++ vars_of sv) of).
   { unfold reload_session, load. rewrite Hload. reflexivity. }
   assert (Hperm : Permutation (consts_of sv ++ vars_of sv) (s_vars s)).
   { etransitivity; [apply filter_partition_perm|apply sort_perm]. }
   assert (Hcv : sort_by (consts_of sv ++ vars_of sv) = sort_by (s_vars s)).
   { apply sort_canonical; [exact Hperm|]. eapply Permutation_NoDup; [|exact Hnv]. apply Permutation_map. symmetry. exact Hperm. }
-  assert (Hcf : sort_by sf = sort_by (s_funs s)) by (apply sort_idem; exact Hnf).
+  assert (Hcf : sort_by of = sort_by (s_funs s)).
+  { apply sort_canonical; [exact Hpof|exact Hofnd]. }
   split; [|split].
   - rewrite Hrs. unfold canon. cbn [s_vars s_funs]. rewrite Hcv, Hcf. reflexivity.
   - rewrite Hrs. unfold snapshot. cbn [s_vars s_funs]. rewrite Hcv, Hcf. reflexivity.
-  - rewrite Hload. cbn [snd]. rewrite !forallb_app.
-    assert (Hrep : forall n, forallb (fun b : bool => b) (repeat true n) = true) by (induction n; [reflexivity|exact IHn]).
-    rewrite !Hrep. reflexivity.
+  - rewrite Hload. cbn [snd]. exact Hoks.
 Qed.
 
 (* ... for the session built by EVERY history of definition forms the interpreter accepts *)
@@ -462,60 +583,37 @@ Proof.
   exact (run_keys_nodup hist empty_session s empty_keys_nodup Hrun).
 Qed.
 
-(* ---- non-vacuity: a history with redefinition, setq, every kind of value, functions calling earlier-named ones ---- *)
+(* ---- non-vacuity: a history with redefinition, setq, every kind of value (symbols, a table with several entries and
+   list values), a list constant, a variable without a value, functions calling later-named ones, a macro used by an
+   earlier-named function ---- *)
 Definition ex_history : list obj :=
   [ L [Sym "defvar"; Sym "*va*"; Fix 5; Str "my x"];
     L [Sym "defvar"; Sym "*va*"; Fix 6];
-    L [Sym "defparameter"; Sym "*vb*"; quote (L [Fix 1; L [Fix 2; Str "s"]; Vec [Fix 1; Sym "a"] T true; Sym "b"])];
+    L [Sym "defparameter"; Sym "*vb*"; quote (L [Fix 1; L [Fix 2; Str "s"]; Vec [Fix 1; Sym "a"] T true None; Sym "b"])];
     L [Sym "setq"; Sym "*vb*"; quote (Dot [Fix 1; Fix 2] (Fix 3))];
     L [Sym "defvar"; Sym "*vc*"; L [Sym "let"; L [L [Sym "table"; L [Sym "make-hash-table"]]];
-                                   L [Sym "setf"; L [Sym "gethash"; quote (Sym "k"); Sym "table"]; Fix 12]; Sym "table"]];
+                                   L [Sym "setf"; L [Sym "gethash"; quote (Sym "k"); Sym "table"]; Fix 12];
+                                   L [Sym "setf"; L [Sym "gethash"; Fix 1; Sym "table"]; quote (L [Fix 1; Sym "two"])];
+                                   L [Sym "setf"; L [Sym "gethash"; Str "s"; Sym "table"]; quote (Sym "sym")]; Sym "table"]];
     L [Sym "defvar"; Sym "*vd*"; L [Sym "lambda"; L [Sym "x"]; L [Sym "*"; Sym "x"; Fix 2]]];
-    L [Sym "defvar"; Sym "*ve*"; quote (Sym "fixnum")];
+    L [Sym "defvar"; Sym "*ve*"; quote (Sym "abc")];
+    L [Sym "defvar"; Sym "*vf*"];
+    L [Sym "defvar"; Sym "*vg*"; L [Sym "list"; Fix 1; L [Sym "lambda"; L [Sym "x"]; Sym "x"]; quote (L [Sym "a"; Sym "b"])]];
     L [Sym "defconstant"; Sym "+ca+"; Fix 42; Str "the answer"];
+    L [Sym "defconstant"; Sym "+cb+"; quote (L [Fix 1; Sym "two"])];
     L [Sym "defun"; Sym "fa"; L [Sym "x"; Sym "&optional"; L [Sym "y"; Fix 2]]; Str "adds"; L [Sym "+"; Sym "x"; Sym "y"]];
-    L [Sym "defun"; Sym "fb"; L [Sym "x"]; L [Sym "fa"; Sym "x"; Fix 1]];
+    L [Sym "defun"; Sym "fb"; L [Sym "x"]; L [Sym "zz"; L [Sym "ma"; Sym "x"]; Fix 1]];
     L [Sym "defmacro"; Sym "ma"; L [Sym "x"]; L [Sym "list"; quote (Sym "+"); Sym "x"; Sym "x"]];
+    L [Sym "defun"; Sym "zz"; L [Sym "x"; Sym "y"]; L [Sym "fa"; Sym "x"; Sym "y"]];
     L [Sym "defun"; Sym "fa"; L [Sym "x"]; L [Sym "*"; Sym "x"; Fix 3]] ].
 
 Lemma ex_history_ok : exists s, run empty_session ex_history = Ok s /\ sess_ok s = true
-  /\ List.length (s_vars s) = 6 /\ List.length (s_funs s) = 3 /\ List.length (snapshot s) = 14
-  /\ alookup (s_vars s) "*va*" = Some (mkV (Some (Fix 5)) "my x" false).
+  /\ List.length (s_vars s) = 9 /\ List.length (s_funs s) = 4 /\ List.length (snapshot s) = 19
+  /\ alookup (s_vars s) "*va*" = Some (mkV (Some (Fix 5)) "my x" false)
+  /\ map (fun f => match f with L (_ :: Sym n :: _) => n | _ => "" end) (skipn 15 (snapshot s)) = ["ma"; "fa"; "fb"; "zz"].
 Proof. eexists. split; [vm_compute; reflexivity|]. repeat split; vm_compute; reflexivity. Qed.
 
-(* ---- outside the guard the faithful model does not meet the specification: the known findings ---- *)
 Definition run_or_empty (h : list obj) : session := match run empty_session h with Ok s => s | Err _ => empty_session end.
-
-(* a symbol as a variable's value is written unquoted: (setq common-lisp-user::*sy* abc) *)
-Lemma snapshot_symbol_refuted :
-  let s := run_or_empty [L [Sym "defvar"; Sym "*sy*"; quote (Sym "abc")]] in
-  sess_ok s = false /\ meets_spec s = false
-  /\ snapshot s = [L [Sym "defvar"; Sym (qual "*sy*")]; L [Sym "setq"; Sym (qual "*sy*"); Sym "abc"]]
-  /\ snd (load_forms empty_session (snapshot s)) = [true; false].
-Proof. repeat split; vm_compute; reflexivity. Qed.
-
-(* a list as a constant's value is written unquoted: (defconstant common-lisp-user::+lc+ (1 2)) *)
-Lemma constant_unquoted_refuted :
-  let s := run_or_empty [L [Sym "defconstant"; Sym "+lc+"; quote (L [Fix 1; Fix 2])]] in
-  sess_ok s = false /\ meets_spec s = false
-  /\ snapshot s = [L [Sym "defconstant"; Sym (qual "+lc+"); L [Fix 1; Fix 2]]]
-  /\ snd (load_forms empty_session (snapshot s)) = [false].
-Proof. repeat split; vm_compute; reflexivity. Qed.
-
-(* a variable declared without a value is written with the printed form of the unbound marker *)
-Lemma unbound_variable_refuted :
-  let s := run_or_empty [L [Sym "defvar"; Sym "*u*"]] in
-  sess_ok s = false /\ meets_spec s = false
-  /\ snapshot s = [L [Sym "defvar"; Sym (qual "*u*")]; L [Sym "setq"; Sym (qual "*u*"); Sym "<unbound>"; Sym "0x00"]].
-Proof. repeat split; vm_compute; reflexivity. Qed.
-
-(* a hash table whose value is a list: the snapshot writes the value unevaluated inside the (let ((table ...))) form *)
-Lemma snapshot_hash_value_refuted :
-  let s := run_or_empty [L [Sym "defvar"; Sym "*h*";
-              L [Sym "let"; L [L [Sym "table"; L [Sym "make-hash-table"]]];
-                 L [Sym "setf"; L [Sym "gethash"; Fix 1; Sym "table"]; quote (L [Fix 1; Fix 2])]; Sym "table"]]] in
-  sess_ok s = false /\ meets_spec s = false /\ snd (load_forms empty_session (snapshot s)) = [true; false].
-Proof. repeat split; vm_compute; reflexivity. Qed.
 
 (* ---- the decidable form of the specification used by the per-run self-check ---- *)
 Lemma obj_eqb_refl : forall v, obj_eqb v v = true.
@@ -540,6 +638,7 @@ Proof.
   induction v using obj_ind2; cbn [obj_eqb];
     try reflexivity; try apply Z.eqb_refl; try apply String.eqb_refl;
     rewrite ?String.eqb_refl, ?Hall, ?Halls, ?IHv, ?Bool.eqb_reflx by assumption; try reflexivity.
+  - destruct fp; [apply Nat.eqb_refl|reflexivity].
   - destruct (list_eq_dec Nat.eq_dec dims dims); [reflexivity|contradiction].
   - induction kvs as [|[k w] r IH]; [reflexivity|]. inversion H as [|? ? [Hk Hw] Hr]; subst. cbn [fst snd] in *.
     rewrite Hk, Hw. cbn [andb]. apply IH. exact Hr.
@@ -564,181 +663,13 @@ Proof.
   unfold meets_spec. rewrite H3, H1, H2. rewrite session_eqb_refl, objs_eqb_refl. reflexivity.
 Qed.
 
-(* ---- instances: the value written by the snapshot for an instance evaluates back to it ---- *)
-
-(* the guard of the theorem: instances (nested without bound) whose instance variables hold snap_safe values *)
-Fixpoint snap_safe_i (v : obj) : bool :=
-  match v with
-  | Inst f slots =>
-      negb (f =? "inst")%string &&
-      (fix go (l : list (string * obj)) : bool :=
-         match l with [] => true | (k, w) :: r => snap_safe_i w && go r end) slots
-  | Flv _ _ _ _ _ _ => false
-  | _ => snap_safe v
-  end.
-(* every instance inside v belongs to a flavor the environment knows, with exactly its instance variables *)
-Fixpoint insts_in (e : env) (v : obj) : bool :=
-  match v with
-  | Inst f slots =>
-      match lookup e f with
-      | Some (Flv _ ivars _ _ _ _) => strings_eqb (map fst ivars) (map fst slots)
-      | _ => false
-      end && keys_nodupb (map fst slots) &&
-      (fix go (l : list (string * obj)) : bool := match l with [] => true | (_, w) :: r => insts_in e w && go r end) slots
-  | _ => true
-  end.
-
-Definition setf_slot (k : string) (fw : obj) : obj := L [Sym "setf"; L [Sym "slot-value"; Sym "inst"; quote (Sym k)]; fw].
-Definition inst_let (f : string) (setfs : list obj) : obj :=
-  L ([Sym "let"; L [L [Sym "inst"; L [Sym "make-instance"; quote (Sym f)]]]] ++ setfs ++ [Sym "inst"]).
-
-(* the body of the instance form, as eval runs it *)
-Definition run_inst (e : env) (fl : string) : list (string * obj) -> list obj -> res obj :=
-  fix go (slots : list (string * obj)) (l : list obj) : res obj :=
-    match l with
-    | [] => Ok Nil
-    | [Sym r] => if (r =? "inst")%string then Ok (Inst fl slots) else Err EUnmodelled
-    | L [Sym sf; L [Sym sv; Sym iv'; L [Sym q; Sym k]]; vf] :: rest =>
-        if (sf =? "setf")%string && (sv =? "slot-value")%string && (iv' =? "inst")%string && (q =? "quote")%string then
-          bind (eval (("inst", Inst fl slots) :: e) vf) (fun v =>
-            match slot_set slots k v with
-            | Some s' => go s' rest
-            | None => Err EType
-            end)
-        else Err EUnmodelled
-    | _ => Err EUnmodelled
-    end.
-
-Lemma eval_inst_let : forall e f n ivars i g s d setfs,
-  lookup e f = Some (Flv n ivars i g s d) ->
-  eval e (inst_let f setfs) = run_inst e f ivars (setfs ++ [Sym "inst"]).
-Proof.
-  intros e f n ivars i g s d setfs Hl. unfold inst_let. cbn [app].
-  unfold quote. cbn. rewrite Hl. reflexivity.
-Qed.
-
-Lemma slot_set_mid : forall done k o w rest, ~ In k (map fst done) ->
-  slot_set (done ++ (k, o) :: rest) k w = Some (done ++ (k, w) :: rest).
-Proof.
-  induction done as [|[k' v'] r IH]; intros k o w rest Hn; cbn [app slot_set].
-  - rewrite String.eqb_refl. reflexivity.
-  - destruct (k' =? k) eqn:E.
-    + apply String.eqb_eq in E. subst. exfalso. apply Hn. left. reflexivity.
-    + rewrite IH; [reflexivity|]. intro Hin. apply Hn. right. exact Hin.
-Qed.
-
-Lemma run_inst_all : forall e fl todo fws done olds,
-  Forall2 (fun kv fw => forall cur, eval (("inst", Inst fl cur) :: e) fw = Ok (snd kv)) todo fws ->
-  map fst olds = map fst todo -> NoDup (map fst done ++ map fst todo) ->
-  run_inst e fl (done ++ olds) (map (fun p => setf_slot (fst p) (snd p)) (combine (map fst todo) fws) ++ [Sym "inst"])
-  = Ok (Inst fl (done ++ todo)).
-Proof.
-  intros e fl todo. induction todo as [|[k w] todo IH]; intros fws done olds HF Hk Hnd.
-  - inversion HF; subst. destruct olds; [|discriminate]. cbn. reflexivity.
-  - inversion HF as [|? fw ? fws' Hfw HF']; subst. destruct olds as [|[k0 o] olds]; [discriminate|].
-    cbn [map fst] in Hk. injection Hk as Hk0 Hk. subst k0.
-    cbn [map fst combine app]. unfold setf_slot at 1. unfold quote. cbn [fst snd].
-    cbn [run_inst]. cbn [String.eqb Ascii.eqb Bool.eqb andb].
-    cbn [snd] in Hfw. rewrite Hfw. cbn [bind].
-    assert (Hn : ~ In k (map fst done)).
-    { cbn [map fst] in Hnd. intro Hin. apply NoDup_remove_2 in Hnd. apply Hnd. apply in_or_app. left. exact Hin. }
-    rewrite slot_set_mid by exact Hn.
-    fold (run_inst e fl).
-    replace (done ++ (k, w) :: olds) with ((done ++ [(k, w)]) ++ olds) by (rewrite <- app_assoc; reflexivity).
-    rewrite (IH fws' (done ++ [(k, w)]) olds HF' Hk).
-    + rewrite <- app_assoc. reflexivity.
-    + rewrite map_app. cbn [map fst]. rewrite <- app_assoc. exact Hnd.
-Qed.
-
-Lemma strings_eqb_eq : forall a b, strings_eqb a b = true -> a = b.
-Proof.
-  induction a as [|x a IH]; destruct b as [|y b]; cbn [strings_eqb]; intro H; try discriminate; [reflexivity|].
-  apply andb_true_iff in H. destruct H as [H1 H2]. apply String.eqb_eq in H1. subst. f_equal. apply IH. exact H2.
-Qed.
-Lemma keys_nodupb_nodup : forall l, keys_nodupb l = true -> NoDup l.
-Proof.
-  induction l as [|k r IH]; intro H; [constructor|]. cbn [keys_nodupb] in H. apply andb_true_iff in H. destruct H as [H1 H2].
-  constructor; [|apply IH; exact H2]. intro Hin. apply negb_true_iff in H1.
-  assert (existsb (String.eqb k) r = true) by (apply existsb_exists; exists k; split; [exact Hin|apply String.eqb_refl]). congruence.
-Qed.
-
-Lemma env_ok_inst : forall e x, env_ok e -> env_ok (("inst", x) :: e).
-Proof.
-  intros e x He s Hs. cbn [lookup]. destruct ("inst" =? s) eqn:E; [|apply He; exact Hs].
-  apply String.eqb_eq in E. subst. vm_compute in Hs. discriminate.
-Qed.
-
-(* adding the binding of inst does not hide a flavor (no flavor is called inst) *)
-Lemma insts_in_inst : forall v e x, snap_safe_i v = true -> insts_in e v = true -> insts_in (("inst", x) :: e) v = true.
-Proof.
-  induction v using obj_ind2; intros e x Hs Hi; try reflexivity.
-  cbn [snap_safe_i] in Hs. apply andb_true_iff in Hs. destruct Hs as [Hf Hs]. apply negb_true_iff in Hf.
-  cbn [insts_in] in Hi |- *. apply andb_true_iff in Hi. destruct Hi as [Hi Hg]. apply andb_true_iff in Hi. destruct Hi as [Hl Hn].
-  cbn [lookup]. assert (("inst" =? f) = false) as -> by (rewrite String.eqb_sym; exact Hf).
-  rewrite Hl, Hn. cbn [andb]. clear Hl Hn.
-  induction slots as [|[k w] r IH]; [reflexivity|].
-  inversion H as [|? ? Hw Hr]; subst. cbn [snd] in Hw.
-  apply andb_true_iff in Hs. destruct Hs as [Hs1 Hs2]. apply andb_true_iff in Hg. destruct Hg as [Hg1 Hg2].
-  rewrite (Hw e x Hs1 Hg1). cbn [andb]. apply IH; assumption.
-Qed.
-
-(* Theorem 3: what the snapshot writes for a value -- instances included, nested without bound, every instance
-   variable going through ppValue again -- evaluates back to the value, in every environment that knows the flavors *)
-Theorem inst_value_reloads : forall v, snap_safe_i v = true -> forall e, env_ok e -> insts_in e v = true ->
-  exists f, pp_value v = Ok f /\ eval e f = Ok v.
-Proof.
-  induction v using obj_ind2; intros Hs e He Hi;
-    try (apply pp_value_eval; [exact He|exact Hs]).
-  - (* Inst *)
-    cbn [snap_safe_i] in Hs. apply andb_true_iff in Hs. destruct Hs as [Hf Hs]. apply negb_true_iff in Hf.
-    cbn [insts_in] in Hi. apply andb_true_iff in Hi. destruct Hi as [Hi Hg]. apply andb_true_iff in Hi. destruct Hi as [Hl Hn].
-    destruct (lookup e f) as [fv|] eqn:El; [|discriminate]. destruct fv; try discriminate.
-    apply strings_eqb_eq in Hl. apply keys_nodupb_nodup in Hn.
-    (* the forms of the instance variables *)
-    assert (Hfws : exists fws, Forall2 (fun kv fw => pp_value (snd kv) = Ok fw /\
-                                          forall cur, eval (("inst", Inst f cur) :: e) fw = Ok (snd kv)) slots fws).
-    { clear El Hl Hn. induction slots as [|[k w] r IH]; [exists []; constructor|].
-      inversion H as [|? ? Hw Hr]; subst. cbn [snd] in Hw.
-      apply andb_true_iff in Hs. destruct Hs as [Hs1 Hs2]. apply andb_true_iff in Hg. destruct Hg as [Hg1 Hg2].
-      destruct (IH Hr Hs2 Hg2) as (fws & HF).
-      destruct (Hw Hs1 e He Hg1) as (fw & Epp & _).
-      exists (fw :: fws). constructor; [|exact HF]. split; [exact Epp|]. intro cur.
-      destruct (Hw Hs1 (("inst", Inst f cur) :: e) (env_ok_inst e _ He) (insts_in_inst w e _ Hs1 Hg1)) as (fw' & Epp' & Ev').
-      rewrite Epp in Epp'. injection Epp' as <-. exact Ev'. }
-    destruct Hfws as (fws & HF).
-    exists (inst_let f (map (fun p => setf_slot (fst p) (snd p)) (combine (map fst slots) fws))). split.
-    + cbn [pp_value].
-      assert (Hgo : (fix go (l : list (string * obj)) : res (list obj) :=
-                       match l with
-                       | [] => Ok []
-                       | (k, w) :: r =>
-                           bind (pp_value w) (fun fw => bind (go r) (fun fs =>
-                             Ok (L [Sym "setf"; L [Sym "slot-value"; Sym "inst"; quote (Sym k)]; fw] :: fs)))
-                       end) slots = Ok (map (fun p => setf_slot (fst p) (snd p)) (combine (map fst slots) fws))).
-      { clear -HF. induction HF as [|[k w] fw r fws [Epp _] HF IH]; [reflexivity|].
-        cbn [snd] in Epp. rewrite Epp. cbn [bind]. rewrite IH. reflexivity. }
-      rewrite Hgo. reflexivity.
-    + rewrite (eval_inst_let e f _ _ _ _ _ _ _ El).
-      assert (HF' : Forall2 (fun kv fw => forall cur, eval (("inst", Inst f cur) :: e) fw = Ok (snd kv)) slots fws).
-      { clear -HF. induction HF as [|? ? ? ? [_ Hev] ? IH]; constructor; assumption. }
-      pose proof (run_inst_all e f slots fws [] ivars HF' Hl) as Hrun. cbn [app map] in Hrun. apply Hrun. exact Hn.
-Qed.
-
-(* non-vacuity and the contrast with InstanceLoadForm (instance.go:56), which make-load-form uses for an instance: it
-   puts the values of the instance variables into the form as they are, so an instance holding a list has a load form
-   that cannot be evaluated [C19-instance-load-form-raw] *)
-Definition ex_flavor : obj := Flv "blk" [("sa", Nil); ("sb", Fix 2)] true true true "".
-Definition ex_env : env := ("blk", ex_flavor) :: global_env.
+(* ---- non-vacuity of Theorem 3: an instance holding lists, a list that holds an instance and a table ---- *)
 Definition ex_instance : obj :=
-  Inst "blk" [("sa", L [Fix 1; L [Fix 2; Str "two"]; Fix 3]); ("sb", Inst "blk" [("sa", Dot [Sym "a"] (Sym "b")); ("sb", Fix 2)])].
-Lemma ex_instance_ok : snap_safe_i ex_instance = true /\ insts_in ex_env ex_instance = true
+  Inst "blk" [("sa", L [Fix 1; L [Fix 2; Str "two"]; Sym "three"]);
+              ("sb", L [Inst "blk" [("sa", Dot [Sym "a"] (Sym "b")); ("sb", Fix 2)]; Hash [(Sym "k", L [Fix 1])]; Sym ":kw"])].
+Lemma ex_instance_ok : snap_safe ex_instance = true /\ insts_in ex_env ex_instance = true
   /\ bind (pp_value ex_instance) (eval ex_env) = Ok ex_instance.
 Proof. repeat split; vm_compute; reflexivity. Qed.
-Lemma instance_load_form_raw_refuted :
-  bind (load_form (Inst "blk" [("sa", L [Fix 1; Fix 2; Fix 3]); ("sb", Fix 2)])) (eval ex_env) = Err ENotFunction
-  /\ bind (pp_value (Inst "blk" [("sa", L [Fix 1; Fix 2; Fix 3]); ("sb", Fix 2)])) (eval ex_env)
-     = Ok (Inst "blk" [("sa", L [Fix 1; Fix 2; Fix 3]); ("sb", Fix 2)]).
-Proof. split; vm_compute; reflexivity. Qed.
 
 (* a session with a flavor, an instance holding a list, a nested instance and the flavor itself, changed by send: the
    extended guard holds and the decidable specification too (evaluated, as on every run; not covered by Theorem 2) *)
